@@ -101,6 +101,11 @@ def gen_module(D, max_funcs=8, option_kinds=False, min_funcs=0):
     kinds = BASE_KINDS + (OPTION_KINDS + OPTION_KINDS if option_kinds else [])
     for i in range(D.int(min_funcs, max_funcs)):
         name = 'f{}'.format(i)
+        if i and D.chance(1, 5):
+            # a name that has an earlier name as a strict prefix (f1 / f1x): naming 'f1' must not select 'f1x'
+            name = 'f{}x'.format(D.int(0, i - 1))
+            if any(g['name'] == name for g in funcs):
+                name = 'f{}'.format(i)
         layout = D.choice(['google', 'google', 'bare'])
         blocks = []
         k = D.choice(kinds)
@@ -115,13 +120,21 @@ def gen_module(D, max_funcs=8, option_kinds=False, min_funcs=0):
             if all(not (g['in_class'] and g['name'] == cand) for g in funcs):
                 name = cand
         funcs.append({'name': name, 'layout': layout, 'blocks': blocks, 'in_class': in_class})
-    return {'funcs': funcs}
+    case = {'funcs': funcs}
+    if D.chance(1, 3):
+        # the class itself carries a doctest: naming 'K' must not select the methods 'K.f1'
+        case['class_doc'] = D.choice(['pass', 'fail_out', 'fail_exc', 'all_skipped', 'disabled'])
+    return case
 
 
 def ordered(case):
-    """module order: the plain functions, then one class K holding the methods"""
+    """module order: the plain functions, then one class K (its own docstring first) holding the methods"""
     fs = case['funcs']
-    return [f for f in fs if not f.get('in_class')] + [f for f in fs if f.get('in_class')]
+    out = [f for f in fs if not f.get('in_class')]
+    if case.get('class_doc'):
+        out.append({'name': 'K', 'layout': 'google', 'in_class': False, 'is_class': True,
+                    'blocks': [{'kind': case['class_doc'], 'pattern': DISABLE_PATTERNS[0] if case['class_doc'] == 'disabled' else None}]})
+    return out + [f for f in fs if f.get('in_class')]
 
 
 def module_lines(case):
@@ -129,6 +142,12 @@ def module_lines(case):
          "        fh.write(ident + '\\n')", '', '']
     in_class = False
     for fn in ordered(case):
+        if fn.get('is_class'):
+            L += ['class K(object):', '    """', '    Summary of K.', '', '    Example:']
+            L += block_lines(fn['blocks'][0]['kind'], 'K:0', '        ', fn['blocks'][0].get('pattern'))
+            L += ['    """', '    attr = 1', '']
+            in_class = True
+            continue
         if fn.get('in_class'):
             if not in_class:
                 L += ['class K(object):', '    attr = 1', '']
